@@ -12,6 +12,7 @@ variables (xd, xp, xe) and, for a subset, as DATE(y,m,d) literals.  A case is a 
 calendar year, one hour of a chosen day, one chosen second); every failure carries a narrow
 ['one', ...] case that check() accepts, so each failing date is replayable on its own."""
 import datetime
+import re
 from fractions import Fraction
 
 from ..core import Sub, fail, isnum, enc
@@ -89,9 +90,44 @@ ASSUMPTIONS = [
 
 # --------------------------------------------------------------------------- helpers
 
+class ChannelDiff(Exception):
+    def __init__(self, failure):
+        Exception.__init__(self, 'delivery channels disagree')
+        self.failure = failure
+
+
+_CH = {'n': 0}
+_CELL_OF = {}
+
+
+def via_cells(formula, vars):
+    """the same formula with every variable replaced by a cell reference holding the same value"""
+    cells = {}
+    text = formula
+    for k in sorted(vars, key=len, reverse=True):
+        if k not in _CELL_OF:
+            _CELL_OF[k] = 'Q%d' % (7 + len(_CELL_OF))
+        text = re.sub(r'(?<![A-Za-z0-9_$])%s(?![A-Za-z0-9_(])' % re.escape(k), _CELL_OF[k], text)
+        cells[_CELL_OF[k]] = vars[k]
+    return text, cells
+
+
 def val(env, formula, vars=None):
-    """-> (python value, None) or (None, normalised non-value outcome)."""
+    """-> (python value, None) or (None, normalised non-value outcome).
+    A date-time is the same value whether the host hands it in as a variable or as the value of a cell: whenever a
+    bound value is a date-time with a time of day (and for every 4th other date-time evaluation) the formula is also
+    evaluated with the variables replaced by cell references carrying the same values; the outcomes must be identical."""
     r = env.ev(formula, vars)
+    dts = [v for v in (vars or {}).values() if isinstance(v, DT)]
+    if dts:
+        _CH['n'] += 1
+        if _CH['n'] % 4 == 0 or any(v.hour or v.minute or v.second or v.microsecond for v in dts):
+            text, cells = via_cells(formula, vars)
+            o1, o2 = env.out(r), env.evo(text, None, None, cells)
+            if o1 != o2:
+                raise ChannelDiff(fail('%s with %s gives %r, but %s with the same values delivered by the cell listener (%s) '
+                                       'gives %r' % (formula, dict((k, enc(v)) for k, v in vars.items()), o1, text,
+                                                     dict((k, enc(v)) for k, v in cells.items()), o2), o1, o2))
     if isinstance(r, dict) and len(r) == 2 and r.get('error', 0) is None and 'result' in r:
         return r['result'], None
     return None, env.out(r)
@@ -586,3 +622,18 @@ class Millis(Sub):
 
 
 SUBS = [Days(), Serials(), Offsets(), Instants(), Millis()]
+
+
+def _guard(sub):
+    inner = sub.check
+
+    def check(env, case):
+        try:
+            return inner(env, case)
+        except ChannelDiff as e:
+            return [e.failure]
+    sub.check = check
+
+
+for _s in SUBS:
+    _guard(_s)
